@@ -523,7 +523,9 @@ func c12Confirmed(f c12Family, chainTrig bool) {
 	// order; Go's order is random).
 	sets := make(map[HtlcSetKey][]channeldb.HTLC)
 	order := 0
-	if k == c12L && w.rpExists {
+	if k == c12L && w.slots[c12R][0][0].on && w.slots[c12RP][0][0].on {
+		// only then can the order matter (the dangling set is keyed by
+		// HTLC index and the later set overwrites the earlier one)
 		order = vChoice("setOrder", 2)
 	}
 	if order == 0 {
@@ -665,4 +667,6 @@ func VerifC12ConfirmedN2()   { c12Confirmed(c12Two, false) }
 // VerifC12ConfirmedChainTrigger: the same disposition obligations when the
 // confirmed commit set is evaluated with chainTrigger (restart in
 // StateContractClosed, see NOTES.md).
-func VerifC12ConfirmedChainTrigger() { c12Confirmed(c12Quick, true) }
+func VerifC12ConfirmedChainTrigger() {
+	c12Confirmed(c12Family{n: 1, maxFill: 2, parts: 1}, true)
+}
